@@ -103,7 +103,7 @@ def sh(cmd, timeout=None, mem_gb=None, cwd=None, env=None):
 class Query:
     def __init__(self, name, sources, entry="harness", defines=(), unwind=8, unwindset=(),
                  flags=(), descr=None, native_sources=None, timeout=None, mem_gb=None,
-                 native_cxx=False, native_flags=(), expect_fail=None, objbits=None, backend=None, witness_optional=None):
+                 native_cxx=False, native_flags=(), expect_fail=None, objbits=None, backend=None, witness_optional=None, native_lib_exclude=None):
         self.name = name
         self.sources = list(sources)          # given to cbmc (C)
         self.entry = entry
@@ -123,6 +123,7 @@ class Query:
         self.objbits = objbits
         self.backend = backend
         self.witness_optional = witness_optional
+        self.native_lib_exclude = native_lib_exclude
         # results
         self.status = None
         self.props = {}
@@ -161,6 +162,7 @@ class Ctx:
         self.tv_programs = 0
         self.rewrites = []
         self.unreplayed = []
+        self.extra_cache = {}
 
     # ------------------------------------------------------------------
     def add(self, q):
@@ -195,7 +197,50 @@ class Ctx:
         return p
 
     # ------------------------------------------------------------------
-    def ir_translate(self, name, tu, cxx=False, defines=(), inline=2000, extra_flags=()):
+    def native_lib(self, exclude=()):
+        """objects of all library sources of /repo's working tree except `exclude` (basenames), built
+        once per check run with ASan, for linking native replays of C++ harness TUs"""
+        key = "nlib_" + hashlib.sha1(",".join(sorted(exclude)).encode()).hexdigest()[:8]
+        with self.lock:
+            if key in self.extra_cache:
+                return self.extra_cache[key]
+            d = self.wpath(key)
+            os.makedirs(d, exist_ok=True)
+            objs = []
+            srcs = [os.path.join(REPO, "src", f) for f in ("rtosc.c", "dispatch.c", "rtosc-time.c")]
+            cppd = os.path.join(REPO, "src", "cpp")
+            vc = os.path.join(d, "version.c")
+            try:
+                txt = open(os.path.join(cppd, "version.c.in")).read()
+                for k_, v_ in (("${VERSION_MAJOR}", "0"), ("${VERSION_MINOR}", "3"), ("${VERSION_PATCH}", "1")):
+                    txt = txt.replace(k_, v_)
+                open(vc, "w").write(txt)
+                srcs.append(vc)
+            except Exception:
+                pass
+            for f in sorted(os.listdir(cppd)):
+                if f.endswith((".c", ".cpp")):
+                    srcs.append(os.path.join(cppd, f))
+            jobs = []
+            for sfile in srcs:
+                b = os.path.basename(sfile)
+                if b in exclude:
+                    continue
+                o = os.path.join(d, b + ".o")
+                cc = ["g++", "-std=c++17"] if b.endswith(".cpp") else ["gcc", "-std=gnu99"]
+                jobs.append((cc + ["-g", "-O0", "-w", "-c", "-fsanitize=address", "-fno-omit-frame-pointer", "-DNDEBUG", "-DRTOSC_VERIF",
+                                   "-I" + os.path.join(REPO, "include"), "-I" + os.path.join(REPO, "src"), "-I" + cppd, sfile, "-o", o], o))
+            with cf.ThreadPoolExecutor(max_workers=NCPU) as ex:
+                res = list(ex.map(lambda j: (sh(j[0], timeout=600), j[1]), jobs))
+            for (rc, out, *_), o in res:
+                if rc == 0:
+                    objs.append(o)
+                else:
+                    self.notes.append("native lib: could not build %s: %s" % (o, out[-300:]))
+            self.extra_cache[key] = objs
+            return objs
+
+    def ir_translate(self, name, tu, cxx=False, defines=(), inline=2000, extra_flags=(), roots=("harness",)):
         """front end B: clang -O1 -> LLVM IR -> tools/ll2c.py -> C for cbmc.  Returns the path of the
         generated C (regenerated from /repo's working tree on every run)."""
         d = self.wpath("ir")
@@ -208,6 +253,13 @@ class Ctx:
         rc, o, *_ = sh(cmd, timeout=600)
         if rc != 0:
             raise RuntimeError("clang failed for %s:\n%s" % (name, o[-3000:]))
+        if roots:
+            # keep only what is reachable from the harness entry points (and the global constructors)
+            ll2 = os.path.join(d, name + ".s.ll")
+            rc, o, *_ = sh(["opt-14", "-S", "-passes=internalize,globaldce", "-internalize-public-api-list=" + ",".join(roots), ll, "-o", ll2], timeout=600)
+            if rc != 0:
+                raise RuntimeError("opt failed for %s:\n%s" % (name, o[-3000:]))
+            ll = ll2
         rc, o, *_ = sh([sys.executable, os.path.join(VERIF, "tools", "ll2c.py"), ll, out], timeout=600)
         if rc != 0:
             raise RuntimeError("ll2c failed for %s:\n%s" % (name, o[-3000:]))
@@ -248,6 +300,14 @@ class Ctx:
         qdir = self.wpath("q", re.sub(r"[^A-Za-z0-9_.-]", "_", q.name))
         os.makedirs(qdir, exist_ok=True)
         q.dir = qdir
+        if getattr(q, "prepare", None) is not None and not getattr(q, "prepared", False):
+            try:
+                q.prepare(q)
+                q.prepared = True
+            except Exception as e:
+                q.status = "error"
+                q.log = "prepare failed: %s" % e
+                return q
         if getattr(q, "static_unwind", False):
             pre, cmd = self.static_cmds(q)
             for c in pre:
@@ -346,6 +406,8 @@ class Ctx:
         if asan:
             cmd += ["-fsanitize=address", "-fno-omit-frame-pointer"]
         cmd += q.native_flags
+        if getattr(q, "native_lib_exclude", None) is not None:
+            srcs = srcs + self.native_lib(tuple(q.native_lib_exclude))
         cmd += srcs + [os.path.join(STUBS, "nd_native.c"), "-o", exe, "-lm"]
         if q.native_cxx:
             # nd_native.c is C; compile separately
